@@ -33,5 +33,10 @@ add("C05",
     "Trusted: the dense reference model; the real kernel file system; files are not corrupted after a successful save; an edge list without n_nodes is only generated when the last node has a link.",
     "deterministic simulation with fault injection: seeded operation chains over a real scratch file system with RLIMIT_FSIZE write cuts, reference-model oracle",
     "DESIGN.md §4 C05")
-for _p in ("C15", "C17"):
+add("C15",
+    "Seeded search over repeated, interleaved generator calls on one Surrogates object and one RecurrencePlot (white noise, Fourier, AAFT, refined AAFT in its three outputs, twins, twin surrogates of both classes, normalisation and re-embedding in between) with every random draw supplied by a scripted source installed at all RNG seams (numpy.random as seen by surrogates.py, stdlib random and datetime as seen by the compiled kernels): legal values in adversarial patterns (sticky, extremal, low-entropy, identity/reversal permutations). After every call the output is checked against the model's current original data: row-wise permutation (bitwise), amplitude spectrum at non-zero non-Nyquist frequencies, twins equal to an independent computation, every twin-surrogate transition legal. Sampling, not enumeration.",
+    "Trusted: the reference twin / spectrum computations; draw values are legal for the imitated API; Gaussian streams never degenerate to a constant (probability zero under any seed); distances within float32 rounding of a threshold are not judged.",
+    "deterministic simulation: scripted random source at every RNG seam, seeded operation histories, invariant checkers",
+    "DESIGN.md §4 C15")
+for _p in ("C17",):
     PENDING[_p] = "in the family (DESIGN §4) but its check is not built yet in this commit; not claimed until it is"
